@@ -75,5 +75,21 @@ def run(ctx):
             if isinstance(got, str) and not got.startswith("ERR:") and got.split("|")[1] in (str(off), "0") and got.startswith("2022-"):
                 return {"rule": "dash-separated year-last date whose year spells a negative UTC offset"}
         return None
+    # before any case runs (and before the worker pool forks): absolute-parser failures with the *default* settings object in
+    # locales whose own order is not MDY — a DATE_ORDER that is not restored on the failure path would stick to that shared object
+    # and be inherited by every settings value created afterwards
+    import dateparser
+    for lg, bad in (("fr", "32/13/2020"), ("de", "45.45.2020"), ("hu", "2020.13.45"), ("fr", "99 99 99 99")):
+        try:
+            dateparser.parse(bad, languages=[lg])
+        except Exception:  # noqa
+            pass
+    for (y, m, d) in [(2015, 3, 14), (2020, 2, 3)]:
+        for lg in ("tl", "en"):
+            for sep in "-/. ":
+                cases.append({"s": write("MDY", y, m, d, sep, True), "langs": [lg], "settings": {"RELATIVE_BASE": base, "TIMEZONE": "UTC", "PREFER_LOCALE_DATE_ORDER": False, "PREFER_DAY_OF_MONTH": "first"},
+                              "expect": expect_str(D(y, m, d)), "stratum": "after-failed-calls/%s" % lg, "_sep": sep, "_order": "MDY", "_y": "%04d" % y})
+        cases.append({"s": write("MDY", y, m, d, "/", True), "langs": ["tl"], "settings": {"RELATIVE_BASE": base, "TIMEZONE": "UTC", "PREFER_MONTH_OF_YEAR": "first"},
+                      "expect": expect_str(D(y, m, d)), "stratum": "after-failed-calls/tl-default", "_sep": "/", "_order": "MDY", "_y": "%04d" % y})
     res = decide(ctx, cases, model_share=0.35 if tier == "quick" else 0.1, known_key=known_key)
     return res
